@@ -18,6 +18,21 @@ Theorem C06_window_value : forall f sp d d',
           (d_rows d) (d_rows d').
 Proof. exact d_analytic_spec. Qed.
 
+(* the headline in one piece (dataset level, `data points between`): the value of measure j of the k-th datapoint is the function over
+   the datapoints standing in its frame — positions lo <= j' - i <= hi of its sorted partition, i its own position *)
+Theorem C06_window_value_rows : forall f sp d d' k r r' j v,
+  windowed f = true -> w_mode (eff_window sp) = Rows -> uniq_keys (d_rows d) = true ->
+  d_analytic f sp d = Ok d' ->
+  nth_error (d_rows d) k = Some r -> nth_error (d_rows d') k = Some r' ->
+  j < List.length (d_ms d) -> nth_error (snd r') j = Some v ->
+  fst r' = fst r /\
+  let S := sorted_part d sp (d_rows d) r in
+  exists i, nth_error S i = Some r /\
+    v = agg f (map (meas j)
+          (map snd (filter (fun jx => in_frame (w_lo (eff_window sp)) (w_hi (eff_window sp)) i (fst jx))
+                           (combine (seq 0 (List.length S)) S)))).
+Proof. exact d_analytic_rows_value. Qed.
+
 (* calc: identifiers and the set of datapoints unchanged; the target component is added (or overwritten) with the value of the
    function for that datapoint over the operand component *)
 Theorem C06_window_value_calc : forall d name f sp operand d',
@@ -184,6 +199,7 @@ Example C06_example :
 Proof. vm_compute. repeat split. Qed.
 
 Print Assumptions C06_window_value.
+Print Assumptions C06_window_value_rows.
 Print Assumptions C06_window_value_calc.
 Print Assumptions C06_calc_frame.
 Print Assumptions C06_window_function.
